@@ -5,7 +5,8 @@ CONSTANTS Lo, Hi, Sizes, TLo, THi, TSizes     \* offsets range over -Lo..Hi (cfg
 
 Bases == {"northup", "mirrorx", "flipy", "rot90", "pythag", "nonsquare"}
 Rects(lo, hi, sz) == {Rect(x, y, w, h) : x \in lo..hi, y \in lo..hi, w \in sz, h \in sz}
-BBoxes == {<<l, b, l + w, b + h>> : l \in 0..1, b \in 0..1, w \in {1, 2}, h \in {1, 3}}
+\* overlapping, nested, touching and separated (by a gap along x, y or both) boxes
+BBoxes == {<<l, b, l + w, b + h>> : l \in {0, 1, 5}, b \in {0, 1, 6}, w \in {1, 2}, h \in {1, 3}}
 
 CasesFor(ch) ==
   CASE ch.k = "pair" -> {[op |-> "pair", base |-> ch.base, a |-> ch.a, b |-> b] : b \in Rects(-Lo, Hi, Sizes)}
